@@ -88,7 +88,14 @@ func r43PixelFormulaShape(c *core.Ctx) {
 	wantY := pAdd(pSym(rootE+".MinY()"), pMul(pSym(py), S), 1)
 	c.Check(R, "grid-anchored-at-root-min/"+g.Name, ext.Pos(), pEq(E[0], wantX) && pEq(E[1], wantY), "min == rootMin + index·span on both axes", fmt.Sprintf("pixel min corner is %s / %s, expected %s / %s: the grid does not start at the corner of the extent", E[0].String(), E[1].String(), wantX.String(), wantY.String()))
 	// span == 2^(deepest - level) * res
-	wantS := pMul(pSym("2^("+pAdd(pSym("ix.deepestLevel"), pSym(lvl), -1).String()+")"), pSym("ix.deepestRes"))
+	recvName := func(fn *core.Func) string {
+		if fn.Decl.Recv != nil && len(fn.Decl.Recv.List) == 1 && len(fn.Decl.Recv.List[0].Names) == 1 {
+			return fn.Decl.Recv.List[0].Names[0].Name
+		}
+		return "ix"
+	}
+	rg := recvName(g)
+	wantS := pMul(pSym("2^("+pAdd(pSym(rg+".deepestLevel"), pSym(lvl), -1).String()+")"), pSym(rg+".deepestRes"))
 	c.Check(R, "span-is-res-times-power-of-two/"+g.Name, g.Decl.Pos(), pEq(S, wantS), "span == 2^(deepestLevel - level) · deepestRes", fmt.Sprintf("span is %s, expected %s", S.String(), wantS.String()))
 
 	// FromTileMatrixSet: deepestRes · 2^deepestLevel == XSpan
@@ -124,58 +131,55 @@ func r43PixelFormulaShape(c *core.Ctx) {
 		}
 		c.Check(R, "res-times-size-is-root-span/"+ft.Name, ft.Decl.Pos(), okRes, "deepestRes · deepestSize == XSpan of the root extent, deepestSize == 2^deepestLevel", "the deepest pixel size is not root span / 2^deepestLevel: "+detail)
 	}
-	// insertCoord: x · 2^(deepest - l) == deepestX ; and the address is what getQuadrantExtentAndCentroid receives
+	// insertCoord: the address handed to getQuadrantExtentAndCentroid for level l is quo(deepest address, 2^(deepest - l))
 	{
 		iinfo := ic.Pkg.TypesInfo
 		ie := newSymEnv(c.P, iinfo)
+		ie.run(ic.Decl.Body.List)
 		okAddr := false
-		detail := ""
-		ast.Inspect(ic.Decl.Body, func(n ast.Node) bool {
-			fs, ok := n.(*ast.ForStmt)
-			if !ok {
-				return true
+		detail := "no call of getQuadrantExtentAndCentroid"
+		ri := recvName(ic)
+		isig := ic.Obj.Type().(*types.Signature)
+		for _, call := range core.CallsIn(iinfo, ic.Decl, "pointindex.PointIndex.getQuadrantExtentAndCentroid") {
+			if len(call.Args) != 4 {
+				continue
 			}
-			ie.run(fs.Body.List)
-			var xv, yv lpoly
-			for o, p := range ie.vars {
-				if o.Name() == "x" {
-					xv = p
-				}
-				if o.Name() == "y" {
-					yv = p
-				}
+			lv, ok0 := ie.eval(call.Args[0])
+			xv, ok1 := ie.eval(call.Args[1])
+			yv, ok2 := ie.eval(call.Args[2])
+			if !ok0 || !ok1 || !ok2 {
+				detail = ie.err
+				continue
 			}
-			pw := pSym("2^(" + pAdd(pSym("ix.deepestLevel"), pSym("l"), -1).String() + ")")
-			if xv != nil && yv != nil {
-				okAddr = pEq(xv, pSym("quo("+pSym("deepestX").String()+","+pw.String()+")")) && pEq(yv, pSym("quo("+pSym("deepestY").String()+","+pw.String()+")"))
-				detail = fmt.Sprintf("x = %s, y = %s", xv.String(), yv.String())
-			}
-			return false
-		})
-		c.Check(R, "coarser-address-is-deepest-over-power-of-two/"+ic.Name, ic.Decl.Pos(), okAddr, "address at level l == deepest address / 2^(deepestLevel - l)", "the pixel address at a coarser level is not the deepest address divided by 2^(deepest - level): "+detail)
+			pw := pSym("2^(" + pAdd(pSym(ri+".deepestLevel"), lv, -1).String() + ")")
+			wantX := pSym("quo(" + pSym(isig.Params().At(0).Name()).String() + "," + pw.String() + ")")
+			wantY := pSym("quo(" + pSym(isig.Params().At(1).Name()).String() + "," + pw.String() + ")")
+			okAddr = pEq(xv, wantX) && pEq(yv, wantY) && canon(call.Args[3]) == ri+".intExtent"
+			detail = fmt.Sprintf("x = %s, y = %s, level = %s", xv.String(), yv.String(), lv.String())
+		}
+		c.Check(R, "coarser-address-is-deepest-over-power-of-two/"+ic.Name, ic.Decl.Pos(), okAddr, "address at level l == deepest address / 2^(deepestLevel - l), extent anchored at the root extent", "the pixel address at a coarser level is not the deepest address divided by 2^(deepest - level): "+detail)
 	}
-	// InsertPoint: deepestX · res == X - MinX
+	// InsertPoint: the address handed to InsertCoord is quo(p - min, res) on both axes
 	{
 		pinfo := ip.Pkg.TypesInfo
 		pe := newSymEnv(c.P, pinfo)
-		// straight-line statements incl. those after the guard
 		pe.run(ip.Decl.Body.List)
-		var dx, dy lpoly
-		for o, p := range pe.vars {
-			if o.Name() == "deepestX" {
-				dx = p
-			}
-			if o.Name() == "deepestY" {
-				dy = p
-			}
-		}
 		okP := false
-		detail := ""
-		if dx != nil && dy != nil {
-			res := pSym("ix.deepestRes").String()
-			okP = pEq(dx, pSym("quo("+pAdd(pSym("intPoint.X()"), pSym("ix.intExtent.MinX()"), -1).String()+","+res+")")) &&
-				pEq(dy, pSym("quo("+pAdd(pSym("intPoint.Y()"), pSym("ix.intExtent.MinY()"), -1).String()+","+res+")"))
-			detail = fmt.Sprintf("deepestX = %s, deepestY = %s", dx.String(), dy.String())
+		detail := "no call of InsertCoord"
+		rp := recvName(ip)
+		pt := "intgeom.FromGeomPoint(" + ip.Obj.Type().(*types.Signature).Params().At(0).Name() + ")"
+		for _, call := range core.CallsIn(pinfo, ip.Decl, "pointindex.PointIndex.InsertCoord") {
+			dx, ok1 := pe.eval(call.Args[0])
+			dy, ok2 := pe.eval(call.Args[1])
+			if !ok1 || !ok2 {
+				detail = pe.err
+				continue
+			}
+			res := pSym(rp + ".deepestRes").String()
+			wx := pSym("quo(" + pAdd(pSym(pt+".X()"), pSym(rp+".intExtent.MinX()"), -1).String() + "," + res + ")")
+			wy := pSym("quo(" + pAdd(pSym(pt+".Y()"), pSym(rp+".intExtent.MinY()"), -1).String() + "," + res + ")")
+			okP = pEq(dx, wx) && pEq(dy, wy)
+			detail = fmt.Sprintf("x address = %s, y address = %s", dx.String(), dy.String())
 		}
 		c.Check(R, "address-is-offset-over-res/"+ip.Name, ip.Decl.Pos(), okP, "deepest address == (p - min) / deepestRes on both axes", "the deepest pixel address of a point is not (p - extent min) / deepestRes: "+detail)
 	}
@@ -306,6 +310,59 @@ func (e *symEnv) varNamed(n string) lpoly {
 	return nil
 }
 
+// normaliseAddressingNames renames, in all symbolic values of one addressing function, the tile matrix local
+// to "tm", the point parameter to "pt", the tile parameter to "tile", the ToXYPoint result to "pointOfOriginXY" and
+// the elements of result arrays by position, so that the rules do not depend on the names chosen in the source.
+func normaliseAddressingNames(c *core.Ctx, f *core.Func, ae *armEnv) {
+	info := f.Pkg.TypesInfo
+	ren := [][2]string{}
+	pre := ""
+	ast.Inspect(f.Decl.Body, func(n ast.Node) bool {
+		if sel, ok := n.(*ast.SelectorExpr); ok && pre == "" && sel.Sel.Name == "CellSize" {
+			pre = ae.common.symName(sel.X)
+		}
+		return pre == ""
+	})
+	if pre != "" {
+		ren = append(ren, [2]string{pre + ".", "tm."})
+	}
+	sig := f.Obj.Type().(*types.Signature)
+	for i := 0; i < sig.Params().Len(); i++ {
+		pv := sig.Params().At(i)
+		switch core.TypeShort(pv.Type()) {
+		case "github.com/go-spatial/geom.Point":
+			ren = append(ren, [2]string{pv.Name() + ".", "pt."})
+		case "github.com/go-spatial/geom/slippy.Tile":
+			ren = append(ren, [2]string{pv.Name() + ".", "tile."})
+		}
+	}
+	for _, call := range core.CallsIn(info, f.Decl, "tms20.ToXYPoint") {
+		for _, pn := range pathTo(f.Decl.Body, call) {
+			if as, ok := pn.(*ast.AssignStmt); ok && len(as.Lhs) == 2 {
+				ren = append(ren, [2]string{canon(as.Lhs[0]) + "[", "pointOfOriginXY["})
+			}
+		}
+	}
+	fix := func(e *symEnv) {
+		for k, v := range e.vars {
+			for _, r := range ren {
+				v = pRename(v, r[0], r[1])
+			}
+			e.vars[k] = v
+		}
+		for k, v := range e.elem {
+			for _, r := range ren {
+				v = pRename(v, r[0], r[1])
+			}
+			e.elem[k] = v
+		}
+	}
+	fix(ae.common)
+	for _, a := range ae.arms {
+		fix(a)
+	}
+}
+
 // R44: FromNative is the inverse of ToNative (per axis and corner convention)
 // and the matrix bounding box spans matrix-size tiles from the origin.
 func r44TileAddressingInverse(c *core.Ctx) {
@@ -320,6 +377,24 @@ func r44TileAddressingInverse(c *core.Ctx) {
 	F := evalWithCornerSwitch(c, fn)
 	T := evalWithCornerSwitch(c, tn)
 	B := evalWithCornerSwitch(c, bb)
+	// the tile matrix is a local with a different definition in every function: name it TM everywhere
+	tmPrefix := func(f *core.Func, e *symEnv) string {
+		pre := ""
+		ast.Inspect(f.Decl.Body, func(n ast.Node) bool {
+			if sel, ok := n.(*ast.SelectorExpr); ok && pre == "" && sel.Sel.Name == "CellSize" {
+				pre = e.symName(sel.X)
+			}
+			return pre == ""
+		})
+		return pre
+	}
+	normTM := func(f *core.Func, ae *armEnv) {
+		normaliseAddressingNames(c, f, ae)
+	}
+	_ = tmPrefix
+	normTM(fn, F)
+	normTM(tn, T)
+	normTM(bb, B)
 	if len(F.arms) != 2 || len(T.arms) != 2 || len(B.arms) != 2 {
 		c.Bad(R, "corner-arms", fn.Decl.Pos(), fmt.Sprintf("expected TopLeft and BottomLeft arms in all three functions, found %d/%d/%d", len(F.arms), len(T.arms), len(B.arms)))
 		return
@@ -358,6 +433,7 @@ func r44TileAddressingInverse(c *core.Ctx) {
 	// MatrixSize
 	M := newSymEnv(c.P, ms.Pkg.TypesInfo)
 	M.run(ms.Decl.Body.List)
+	normTM(ms, &armEnv{common: M, arms: map[string]*symEnv{}})
 	w, h := M.varNamed("width"), M.varNamed("height")
 	wantW := pMul(pMul(pSym("tm.MatrixWidth"), pSym("tm.TileWidth")), pSym("tm.CellSize"))
 	wantH := pMul(pMul(pSym("tm.MatrixHeight"), pSym("tm.TileHeight")), pSym("tm.CellSize"))
